@@ -153,10 +153,24 @@ class LetSubstitution:
             if len(var) != 2 or any(n in bound for n in nodes.dfs(var[1])):
                 # the bound term would be captured by this binder
                 continue
+            if self.__rebound(node[2], var[0]):
+                # an inner binder shadows the variable
+                continue
             if any(n == var[0] for n in nodes.dfs(node[2])):
                 subs = nodes.substitute(node[2], {var[0]: var[1]})
                 yield Simplification({node.id: Node(node[0], node[1], subs)},
                                      [])
+
+    def __rebound(self, term, var):
+        """Check whether ``var`` is bound again by a binder within ``term``."""
+        for n in nodes.dfs(term):
+            if n.has_ident() and len(n) > 1 and n.get_ident() in [
+                    'let', 'forall', 'exists'
+            ] and not n[1].is_leaf():
+                if any(not b.is_leaf() and len(b) > 0 and b[0] == var
+                       for b in n[1]):
+                    return True
+        return False
 
     def __str__(self):
         return 'substitute variable into let body'
